@@ -89,8 +89,8 @@ class Link(ModelElement):
             sliver.set_technology(technology)
             sliver.set_properties(**kwargs)
 
-            # get a list of node_ids for interfaces
-            interface_ids = (iff.node_id for iff in interfaces)
+            # get a list of node_ids for interfaces (evaluated here, before anything is added to the graph)
+            interface_ids = [iff.node_id for iff in interfaces]
             self.topo.graph_model.add_network_link_sliver(interfaces=interface_ids, lsliver=sliver)
         else:
             assert node_id is not None
